@@ -48,6 +48,34 @@ class Validated(Forward):
     def join(self, a, b):
         return a and b
 
+    def simple(self, st, state):
+        # a validator helper:  _check(enc_type, ALLOWED)  where the helper is  `if <p0> not in <p1>: raise ...`  and nothing else
+        if isinstance(st, ast.Expr) and isinstance(st.value, ast.Call) and self.ctx is not None and not st.value.keywords \
+                and len(st.value.args) == 2 and isinstance(st.value.args[0], ast.Name) and st.value.args[0].id == self.p:
+            site = {id(s_.node): s_ for s_ in self.ctx.cg.sites(self.f)}.get(id(st.value))
+            if site is not None and len(site.callees) == 1:
+                g = site.callees[0]
+                body = [x for x in g.node.body if not (isinstance(x, ast.Expr) and isinstance(x.value, ast.Constant))]
+                if g.module is self.f.module and g.cls is None and len(g.posparams) == 2 and len(body) == 1 and isinstance(body[0], ast.If) \
+                        and not body[0].orelse and len(body[0].body) == 1 and isinstance(body[0].body[0], ast.Raise) \
+                        and isinstance(body[0].test, ast.Compare) and len(body[0].test.ops) == 1 and isinstance(body[0].test.ops[0], ast.NotIn) \
+                        and isinstance(body[0].test.left, ast.Name) and body[0].test.left.id == g.posparams[0] \
+                        and isinstance(body[0].test.comparators[0], ast.Name) and body[0].test.comparators[0].id == g.posparams[1]:
+                    a1 = st.value.args[1]
+                    lit = None
+                    if isinstance(a1, ast.Name):
+                        lit = self._module_const(a1.id)
+                    else:
+                        try:
+                            lit = tuple(ast.literal_eval(a1))
+                        except Exception:
+                            lit = None
+                    if lit is not None:
+                        self.literals.append((st.value, lit))
+                        self.helper_raises = True
+                        return True
+        return state
+
     def test(self, expr, state):
         if isinstance(expr, ast.Compare) and len(expr.ops) == 1 and isinstance(expr.left, ast.Name) and expr.left.id == self.p \
                 and isinstance(expr.comparators[0], (ast.Tuple, ast.List, ast.Set, ast.Name)):
@@ -369,7 +397,7 @@ def run(ctx, rep):
                    witness=None if good else "accepted values %s differ from the documented %s" % (sorted(lit), sorted(want)),
                    key="%s/literal" % f.name)
         # the raise on failure
-        raises = [n for n in own_nodes(f.node) if isinstance(n, ast.Raise)]
+        raises = [n for n in own_nodes(f.node) if isinstance(n, ast.Raise)] or ([f.node] if getattr(v, "helper_raises", False) else [])
         rep.ob("U1", bool(raises), f.node, f, construct="bad enc_type raises", how="raise present", key="%s/raises" % f.name,
                witness=None if raises else "no raise for a bad enc_type")
     # ---- U2
@@ -380,6 +408,33 @@ def run(ctx, rep):
                witness="symbols are not looked up by a plain subscript of the caller's vocabulary", key="no-subscript")
     vocab_uses(ctx, rep, b2h, "vocab_stoi", False)
     vocab_uses(ctx, rep, h2b, "vocab_itos", False)
+    # U2b: a failed look-up is not swallowed: no vocabulary subscript sits in a `try` whose KeyError (or wider) handler can fall
+    # through without raising
+    for f_, vn in ((s2e, "vocab_stoi"), (e2s, "vocab_itos")):
+        for tr in [n for n in own_nodes(f_.node) if isinstance(n, ast.Try)]:
+            subs = [x for b_ in tr.body for x in ast.walk(b_) if isinstance(x, ast.Subscript) and isinstance(x.value, ast.Name) and x.value.id == vn
+                    and isinstance(x.ctx, ast.Load)]
+            if not subs:
+                continue
+            for hd in tr.handlers:
+                names = set()
+                if hd.type is None:
+                    names = {"BaseException"}
+                else:
+                    for t_ in (hd.type.elts if isinstance(hd.type, ast.Tuple) else [hd.type]):
+                        names.add(unparse(t_).split(".")[-1])
+                if not names & {"KeyError", "LookupError", "Exception", "BaseException"}:
+                    continue
+
+                class Falls(Forward):
+                    def join(self, a, b):
+                        return a or b
+                fl = Falls(ast.FunctionDef(name="h", args=None, body=hd.body, decorator_list=[], lineno=hd.lineno, col_offset=0))
+                falls_through = fl.block(hd.body, True, None) is not None
+                rep.ob("U2", not falls_through, hd, f_, construct="handler around the vocabulary look-up %s" % unparse(subs[0])[:40],
+                       how="every path through the handler raises", nontrivial=True, key="%s/lookup-error-swallowed" % f_.name,
+                       witness=None if not falls_through else "the KeyError of a symbol that is not in the vocabulary is caught and, on some path, "
+                       "not re-raised: the symbol is silently dropped from the encoding")
     # dot without "." entry raises
     dot = [n for n in own_nodes(s2e.node) if isinstance(n, ast.If) and '"."' in unparse(n.test).replace("'", '"')
            and any(isinstance(x, ast.Raise) for x in ast.walk(n))]
@@ -542,6 +597,21 @@ def run(ctx, rep):
         stepped = [n for n in ast.walk(lp) if isinstance(n, ast.For) and n is not lp and isinstance(n.target, ast.Name)
                    and isinstance(n.iter, ast.Call) and unparse(n.iter.func) == "range" and len(n.iter.args) == 3 and not n.iter.keywords
                    and poly(n.iter.args[0], env) in ({}, {(): 0}) and poly(n.iter.args[1], env) == VL and poly(n.iter.args[2], env) == W]
+        # ... also as a comprehension:  [vector[start: start + width] for start in range(0, len(vector), width)]
+        comp_stepped = []
+        for stx in lp.body:
+            for c_ in ast.walk(stx):
+                if isinstance(c_, (ast.ListComp, ast.GeneratorExp)) and len(c_.generators) == 1 and not c_.generators[0].ifs:
+                    g_ = c_.generators[0]
+                    if isinstance(g_.target, ast.Name) and isinstance(g_.iter, ast.Call) and unparse(g_.iter.func) == "range" and len(g_.iter.args) == 3 \
+                            and not g_.iter.keywords and poly(g_.iter.args[0], env) in ({}, {(): 0}) and poly(g_.iter.args[1], env) == VL \
+                            and poly(g_.iter.args[2], env) == W and isinstance(c_.elt, ast.Subscript) and isinstance(c_.elt.slice, ast.Slice) \
+                            and isinstance(c_.elt.slice.lower, ast.Name) and c_.elt.slice.lower.id == g_.target.id \
+                            and isinstance(c_.elt.value, ast.Name) and c_.elt.value.id == v:
+                        comp_stepped.append(c_)
+        if comp_stepped and not rows and not stepped:
+            rows = ["<comprehension>"]
+            inside["<comprehension>"] = next(stx for stx in lp.body if any(x is comp_stepped[0] for x in ast.walk(stx)))
         if not rows and not stepped:
             probs.append("the number of rows is not len(vector) // len(vocab) computed for the current vector")
         # slices
